@@ -14,6 +14,8 @@ CONSTANTS
   ParamKeys = {}
   MaxParamChanges = 0
   Seeded = FALSE
+  Networks = {"main"}
+  Heights0 = {1}
   Defects = {"bond_denom_only"}
 INVARIANT MInv_P
 INVARIANT MInv_Model
